@@ -62,7 +62,9 @@ Definition quote_string (s : bytes) : res bytes :=
 From Coq Require Import String.
 From GQL Require Import Syntax.Ast Syntax.Parser.
 
-Inductive piece := PTok (k : tkind) (v : bytes) | PSep (s : bytes).
+(* PBlk d s: the description s written as a block string (getDescription when
+   printableAsBlockString holds), inside d enclosing calls of indent() *)
+Inductive piece := PTok (k : tkind) (v : bytes) | PSep (s : bytes) | PBlk (depth : N) (s : bytes).
 Definition layout := list piece.
 
 Definition quote_str (s : bytes) : bytes :=
@@ -76,9 +78,70 @@ Definition punct_bytes (k : tkind) : bytes :=
   | _ => []
   end.
 
+(* indent: every newline gets two spaces after it *)
+Fixpoint indent_bytes (s : bytes) : bytes :=
+  match s with
+  | [] => []
+  | c :: r => if c =? 10 then 10 :: 32 :: 32 :: indent_bytes r else c :: indent_bytes r
+  end.
+
+(* ---- descriptions: getDescription / printableAsBlockString ---- *)
+Definition tq : bytes := [34; 34; 34].
+(* no_tq s: s does not contain three double quotes in a row (strings.Contains negated) *)
+Fixpoint no_tq (s : bytes) : bool :=
+  match s with
+  | [] => true
+  | _ :: r => negb (starts_with tq s) && no_tq r
+  end.
+(* s ends neither with a double quote nor with a backslash (the two strings.HasSuffix tests) *)
+Fixpoint last_ok (s : bytes) : bool :=
+  match s with
+  | [] => true
+  | [c] => negb (c =? 34) && negb (c =? 92)
+  | _ :: r => last_ok r
+  end.
+(* for _, r := range s { if !p(r) { return false } } *)
+Fixpoint all_runes (p : N -> bool) (fuel : nat) (s : bytes) : bool :=
+  match fuel with
+  | O => false
+  | S f =>
+    match rune_at s with
+    | None => true
+    | Some (r, n) => p r && all_runes p f (dropN n s)
+    end
+  end.
+Definition block_rune_ok (r : N) : bool :=
+  negb (((r <? 32) && negb (r =? 9) && negb (r =? 10)) || (r =? 65279)).
+(* strings.Split(s, LF) *)
+Fixpoint split_nl (s : bytes) : list bytes :=
+  match s with
+  | [] => [[]]
+  | c :: r =>
+    if c =? 10 then [] :: split_nl r
+    else match split_nl r with l :: ls => (c :: l) :: ls | [] => [[c]] end
+  end.
+(* isBlank: strings.Trim(l, space tab) is empty *)
+Definition blank_line (l : bytes) : bool := forallb is_blank_char l.
+(* l[0] is a space or a tab *)
+Definition starts_blank (l : bytes) : bool := match l with c :: _ => is_blank_char c | [] => false end.
+
+Definition printable_as_block (s : bytes) : bool :=
+  no_tq s && last_ok s && all_runes block_rune_ok (S (List.length s)) s &&
+  (let lines := split_nl s in
+   negb (blank_line (hd [] lines)) && negb (blank_line (last lines [])) && negb (starts_blank (hd [] lines)) &&
+   match lines with
+   | _ :: ((_ :: _) as rest) => existsb (fun l => negb (blank_line l) && negb (starts_blank l)) rest
+   | _ => true
+   end).
+
+(* the text between the triple quotes: join of the opening quotes, desc and the closing quotes
+   with separator LF when the description contains a newline, no separator otherwise *)
+Definition block_raw (s : bytes) : bytes := if existsb (N.eqb 10) s then 10 :: s ++ [10] else s.
+
 Definition render_piece (p : piece) : bytes :=
   match p with
   | PSep s => s
+  | PBlk d s => tq ++ N.iter d indent_bytes (block_raw s) ++ tq
   | PTok k v =>
     match k with
     | NAME | INT | FLOAT => v
@@ -106,14 +169,9 @@ Definition ljoin (l : list layout) (sep : bytes) : layout :=
   ljoin_ne (filter (fun x => negb (is_nil x)) l) sep.
 (* wrap(start, maybeString, end) *)
 Definition lwrap (a m b : layout) : layout := if is_nil m then [] else a ++ m ++ b.
-(* indent: every newline gets two spaces after it *)
-Fixpoint indent_bytes (s : bytes) : bytes :=
-  match s with
-  | [] => []
-  | c :: r => if c =? 10 then 10 :: 32 :: 32 :: indent_bytes r else c :: indent_bytes r
-  end.
+(* indent(str) on a layout: separators and block-string descriptions contain the newlines *)
 Definition lindent (l : layout) : layout :=
-  map (fun p => match p with PSep s => PSep (indent_bytes s) | t => t end) l.
+  map (fun p => match p with PSep s => PSep (indent_bytes s) | PBlk d s => PBlk (N.succ d) s | t => t end) l.
 (* block(items) *)
 Definition lblock (items : list layout) : layout :=
   if is_nil items then [PTok BRACE_L []; PTok BRACE_R []]
@@ -182,13 +240,99 @@ Definition lay_frag (f : fragdef) : layout :=
   Kw "fragment" ++ sp ++ Nm (fr_name f) ++ sp ++ Kw "on" ++ sp ++ Nm (nd_name (fr_cond f)) ++ sp ++
   lwrap [] (lay_dirs (fr_dirs f)) sp ++ lay_selset (fr_sel f).
 
-(* type-system definitions are not modelled: they print as nothing here and
-   [print_doc] is only compared on executable documents *)
+(* ---- type-system definitions (the map branch of each reducer: a definition always has an
+   edited child -- its name, its operation types, the extended definition -- so the visitor
+   hands the reducer the map copy) ---- *)
+
+(* join with a separator that contains a token: " & " and " | " *)
+Fixpoint ljoinL_ne (l : list layout) (sep : layout) : layout :=
+  match l with
+  | [] => []
+  | [a] => a
+  | a :: r => a ++ sep ++ ljoinL_ne r sep
+  end.
+Definition ljoinL (l : list layout) (sep : layout) : layout :=
+  ljoinL_ne (filter (fun x => negb (is_nil x)) l) sep.
+Definition amp_sep : layout := [PSep [32]; PTok AMP []; PSep [32]].
+Definition pipe_sep : layout := [PSep [32]; PTok PIPE []; PSep [32]].
+Definition nl : layout := [PSep [10]].
+
+(* getDescription: nothing for an absent or empty description, a block string when
+   printableAsBlockString holds, the quoted string otherwise *)
+Definition lay_descr (d : descr) : layout :=
+  match d with
+  | None => []
+  | Some (s, _) =>
+    if is_nil s then []
+    else if printable_as_block s then [PBlk 0 s]
+    else [PTok STRING s]
+  end.
+(* if desc != "" { str = desc + LF + str } *)
+Definition with_desc (d : descr) (body : layout) : layout := lwrap [] (lay_descr d) nl ++ body.
+(* if desc != "" { str = LF + desc + LF + str } *)
+Definition with_desc_nl (d : descr) (body : layout) : layout := lwrap nl (lay_descr d) nl ++ body.
+
+Definition dflt_lay (dv : option value) : layout := match dv with Some d => lay_value d | None => [] end.
+
+Definition lay_ivdef (i : ivdef) : layout :=
+  with_desc_nl (iv_desc i)
+    (ljoin [ Nm (iv_name i) ++ PTok COLON [] :: PSep [32] :: lay_type (iv_type i);
+             lwrap (T EQUALS ++ sp) (dflt_lay (iv_default i)) [];
+             lay_dirs (iv_dirs i) ] [32]).
+
+(* strings.TrimSpace at the start of an argument's text, which begins with LF, a double quote
+   or a name character: the ASCII white space *)
+Fixpoint trim_space (s : bytes) : bytes :=
+  match s with
+  | c :: r => if ((9 <=? c) && (c <=? 13)) || (c =? 32) then trim_space r else s
+  | [] => []
+  end.
+(* hasArgDesc: some printed argument starts, after TrimSpace, with three double quotes *)
+Definition has_arg_desc (args : list layout) : bool :=
+  existsb (fun a => starts_with tq (trim_space (flat a))) args.
+Definition lay_argdefs (l : list ivdef) : layout :=
+  let args := map lay_ivdef l in
+  if has_arg_desc args then lwrap (T PAREN_L) (lindent (nl ++ ljoin args [10])) (nl ++ T PAREN_R)
+  else lwrap (T PAREN_L) (ljoin args comma_sp) (T PAREN_R).
+
+Definition lay_fielddef (f : fielddef) : layout :=
+  with_desc_nl (fd_desc f)
+    (Nm (fd_name f) ++ lay_argdefs (fd_args f) ++ PTok COLON [] :: PSep [32] :: lay_type (fd_type f) ++
+     lwrap sp (lay_dirs (fd_dirs f)) []).
+
+Definition lay_optypedef (o : optypedef) : layout :=
+  PTok NAME (optype_name (ot_op o)) :: PTok COLON [] :: PSep [32] :: Nm (nd_name (ot_type o)).
+
+Definition lay_objdef (o : objdef) : layout :=
+  with_desc (ob_desc o)
+    (ljoin [ Kw "type"; Nm (ob_name o);
+             lwrap (Kw "implements" ++ sp) (ljoinL (map (fun n => Nm (nd_name n)) (ob_ifaces o)) amp_sep) [];
+             lay_dirs (ob_dirs o);
+             lblock (map lay_fielddef (ob_fields o)) ] [32]).
+
+Definition lay_enumval (v : enumvaldef) : layout :=
+  with_desc_nl (ev_desc v) (ljoin [ Nm (ev_name v); lay_dirs (ev_dirs v) ] [32]).
+
 Definition lay_def (d : definition) : layout :=
   match d with
   | DOp o => lay_op o
   | DFrag f => lay_frag f
-  | _ => []
+  | DSchema dirs ots _ => ljoin [ Kw "schema"; lay_dirs dirs; lblock (map lay_optypedef ots) ] [32]
+  | DScalar d n dirs _ => with_desc d (ljoin [ Kw "scalar"; Nm n; lay_dirs dirs ] [32])
+  | DObject o => lay_objdef o
+  | DInterface d n dirs fs _ =>
+    with_desc d (ljoin [ Kw "interface"; Nm n; lay_dirs dirs; lblock (map lay_fielddef fs) ] [32])
+  | DUnion d n dirs ts _ =>
+    with_desc d (ljoin [ Kw "union"; Nm n; lay_dirs dirs;
+                         T EQUALS ++ sp ++ ljoinL (map (fun t => Nm (nd_name t)) ts) pipe_sep ] [32])
+  | DEnum d n dirs vs _ =>
+    with_desc d (ljoin [ Kw "enum"; Nm n; lay_dirs dirs; lblock (map lay_enumval vs) ] [32])
+  | DInput d n dirs fs _ =>
+    with_desc d (ljoin [ Kw "input"; Nm n; lay_dirs dirs; lblock (map lay_ivdef fs) ] [32])
+  | DExtend o _ => Kw "extend" ++ sp ++ lay_objdef o
+  | DDirective d n args locs _ =>
+    with_desc d (Kw "directive" ++ sp ++ T AT ++ Nm n ++ lay_argdefs args ++ sp ++ Kw "on" ++ sp ++
+                 ljoinL (map Nm locs) pipe_sep)
   end.
 
 Definition lay_doc (d : document) : layout := ljoin (map lay_def (doc_defs d)) [10; 10] ++ [PSep [10]].
@@ -196,3 +340,28 @@ Definition lay_doc (d : document) : layout := ljoin (map lay_def (doc_defs d)) [
 Definition print_value (v : value) : bytes := flat (lay_value v).
 Definition print_type (t : ty) : bytes := flat (lay_type t).
 Definition print_doc (d : document) : bytes := flat (lay_doc d).
+
+(* DESIGN.md Appendix A: an empty description is the same AST as an absent one (the printer
+   omits both); norm_doc replaces every empty description by none *)
+Definition norm_descr (d : descr) : descr := match d with Some ([], _) => None | _ => d end.
+Definition norm_ivdef (i : ivdef) : ivdef :=
+  mkivdef (norm_descr (iv_desc i)) (iv_name i) (iv_type i) (iv_default i) (iv_dirs i) (iv_loc i).
+Definition norm_fielddef (f : fielddef) : fielddef :=
+  mkfielddef (norm_descr (fd_desc f)) (fd_name f) (map norm_ivdef (fd_args f)) (fd_type f) (fd_dirs f) (fd_loc f).
+Definition norm_objdef (o : objdef) : objdef :=
+  mkobjdef (norm_descr (ob_desc o)) (ob_name o) (ob_ifaces o) (ob_dirs o) (map norm_fielddef (ob_fields o)) (ob_loc o).
+Definition norm_enumval (v : enumvaldef) : enumvaldef :=
+  mkenumvaldef (norm_descr (ev_desc v)) (ev_name v) (ev_dirs v) (ev_loc v).
+Definition norm_def (d : definition) : definition :=
+  match d with
+  | DOp _ | DFrag _ | DSchema _ _ _ => d
+  | DScalar ds n dirs l => DScalar (norm_descr ds) n dirs l
+  | DObject o => DObject (norm_objdef o)
+  | DInterface ds n dirs fs l => DInterface (norm_descr ds) n dirs (map norm_fielddef fs) l
+  | DUnion ds n dirs ts l => DUnion (norm_descr ds) n dirs ts l
+  | DEnum ds n dirs vs l => DEnum (norm_descr ds) n dirs (map norm_enumval vs) l
+  | DInput ds n dirs fs l => DInput (norm_descr ds) n dirs (map norm_ivdef fs) l
+  | DExtend o l => DExtend (norm_objdef o) l
+  | DDirective ds n args locs l => DDirective (norm_descr ds) n (map norm_ivdef args) locs l
+  end.
+Definition norm_doc (d : document) : document := mkdoc (map norm_def (doc_defs d)) (doc_loc d).
